@@ -15,6 +15,7 @@ from ..fs import FsSeam, snapshot, read_bytes, REAL_OPEN
 from .. import specs
 
 name = 'out'
+RAISE_ORACLE = 'I14.raise'
 MODELS = ['m', 'm_b', 'mm', 'model one']
 EXTS = ['html', 'pickle', 'tex', 'F12']
 
